@@ -61,6 +61,33 @@ def runAssigns (o : Obj) : List (Nat × Expr) → Obj
 /-- the object after the write-side pre-processing -/
 def pre (c : Codec) (lay : Layout) (o : Obj) : Obj := runAssigns o (preAssigns c lay)
 
+def isCast4 : Expr → Bool
+  | .cast 4 _ => true
+  | .const k => decide (k < 256 ^ 4)
+  | _ => false
+
+theorem isCast4_lt (e : Expr) (h : isCast4 e = true) (o : Obj) : e.eval o < 256 ^ 4 := by
+  unfold isCast4 at h
+  split at h
+  · simp only [Expr.eval]; exact Nat.mod_lt _ (by decide)
+  · simpa [Expr.eval] using h
+  · simp at h
+
+/-- second group of side conditions on the pre-processing block (needed only for `UserWF → ItemsWF`):
+    length fields of distinct `var` items are distinct; constant assignments fit their field; the header
+    size constant fits 16 bits; `calculateObjectSize` ends in a cast to 32 bits; headerSize/objectSize
+    are scalars of the layout with widths 2 and 4. -/
+def preOK2 (c : Codec) (lay : Layout) : Bool :=
+  ((lensOf lay.items).map (·.1)).Nodup &&
+  (lay.pre.all fun p => match p.2 with
+    | .const k => decide (k < 256 ^ widthOf lay.items p.1)
+    | _ => true) &&
+  decide (4 + itemsConst (lay.items.take lay.nHdr) < 65536) &&
+  isCast4 c.sizeExpr &&
+  lay.items.contains (.scalar lay.hsF 2) && lay.items.contains (.scalar lay.osF 4) &&
+  decide (lay.hsF ≠ lay.osF)
+
+
 /-- split a trailing `pad osF 4` off -/
 def splitPad (osF : Nat) : List Item → List Item × Bool
   | [] => ([], false)
@@ -78,6 +105,7 @@ def regularCheck (c : Codec) (lay : Layout) : Bool :=
   decide (c.writeProg = Stmt.block (assignStmts (preAssigns c lay) ++ .wr lay.sigF 4 :: canonWr L)) &&
   itemsOK [lay.sigF] [] L &&
   preOK lay &&
+  preOK2 c lay &&
   sp.1.all Item.noFill &&
   decide (L = if sp.2 then sp.1 ++ [.pad lay.osF 4] else sp.1) &&
   (match linearize c.sizeExpr with
@@ -109,6 +137,7 @@ structure Reg (c : Codec) (lay : Layout) : Prop where
   wr : c.writeProg = Stmt.block (assignStmts (preAssigns c lay) ++ .wr lay.sigF 4 :: canonWr lay.items)
   ok : itemsOK [lay.sigF] [] lay.items = true
   pre : preOK lay = true
+  pre2 : preOK2 c lay = true
   nf : (splitPad lay.osF lay.items).1.all Item.noFill = true
   sp : lay.items = if (splitPad lay.osF lay.items).2 then (splitPad lay.osF lay.items).1 ++ [.pad lay.osF 4]
                    else (splitPad lay.osF lay.items).1
@@ -119,8 +148,8 @@ structure Reg (c : Codec) (lay : Layout) : Prop where
 
 theorem regularCheck_sound (c : Codec) (lay : Layout) (h : regularCheck c lay = true) : Reg c lay := by
   simp only [regularCheck, Bool.and_eq_true, decide_eq_true_eq] at h
-  obtain ⟨⟨⟨⟨⟨⟨⟨⟨h1, h2⟩, h3⟩, hp⟩, h4⟩, h5⟩, h6⟩, h7⟩, h8⟩ := h
-  refine ⟨h1, h2, h3, hp, h4, h5, ?_, h7, h8⟩
+  obtain ⟨⟨⟨⟨⟨⟨⟨⟨⟨h1, h2⟩, h3⟩, hp⟩, hp2⟩, h4⟩, h5⟩, h6⟩, h7⟩, h8⟩ := h
+  refine ⟨h1, h2, h3, hp, hp2, h4, h5, ?_, h7, h8⟩
   cases hl : linearize c.sizeExpr with
   | none => simp [hl] at h6
   | some lin =>
